@@ -554,6 +554,21 @@ def run(prog, rep, tier):
     rep.exhaustive.append("R3.2: all Option shapes x consistent orderings at the fixedstruct, evtx and journal use sites; all result variants at the text use site")
     rep.floor(R32, 30)
 
+    # ---------------- R3.5 (lifted from C11 R11.5): year-less logs: the year pre-pass stops only strictly before A
+    R35 = rep.rule("R3.5", "year inference for year-less logs covers every message at or after A (lifted from C11 R11.5)")
+    import contextlib as _cl, io as _io
+    import c11 as _c11
+    from common import Report as _Rep
+    _sub = _Rep("C11", "quick", dict(rep.meta))
+    _sub.finish = lambda *a, **k: 0
+    with _cl.redirect_stdout(_io.StringIO()):
+        _c11.run(prog, _sub, "quick")
+    for (rid_, key_, what_, det_) in _sub.violations:
+        if rid_ == "R11.5":
+            rep.violation(R35, key_.split("|", 1)[1], what_)
+    for s_ in _sub.rules.get("R11.5", {}).get("samples", []):
+        rep.examined(R35, str(s_)[:70], sample=s_)
+
     return rep.finish(
         "Static necessary-condition check: (R3.1) complete decision tables of every window predicate over Option shapes x orderings, "
         "(R3.2) composition of those tables with each reader's handling of the result so that accept <=> A <= t <= B at the text, "
